@@ -191,6 +191,13 @@ exec_destroy (pipecmd_t p)
 
     pipecmd_destroy (p);
 
+    /*
+     *  WEXITSTATUS is only meaningful for a child that exited. Report
+     *   death by signal the way the shell does so it is never "success".
+     */
+    if (WIFSIGNALED (status))
+        return (128 + WTERMSIG (status));
+
     return (WEXITSTATUS (status));
 }
 
